@@ -1,9 +1,91 @@
 package main
 
-// Witness search: concrete inputs that make the real code violate a property (filled in per property).
+// Witness search and replay: concrete inputs that make the REAL code (current working tree of /repo)
+// violate a property. The harness files of /verif/replay are injected with `go test -overlay`; nothing is
+// written into /repo.
 
-func findWitness(s *Session, prop string, ob *Obligation) *Witness { return nil }
+import (
+	"bytes"
+	"context"
+	"encoding/json"
+	"fmt"
+	"os"
+	"os/exec"
+	"path/filepath"
+	"strings"
+	"time"
+)
+
+type harnessReply struct {
+	Violated bool           `json:"violated"`
+	Observed string         `json:"observed"`
+	Input    map[string]any `json:"input"`
+	Tried    int            `json:"tried"`
+	Error    string         `json:"error"`
+}
+
+func runHarness(req map[string]any) (*harnessReply, string, error) {
+	dir, err := os.MkdirTemp("", "govc-replay")
+	if err != nil {
+		return nil, "", err
+	}
+	defer os.RemoveAll(dir)
+	files, _ := filepath.Glob(filepath.Join(verifDir, "replay", "*_test.go.txt"))
+	repl := map[string]string{}
+	for _, f := range files {
+		base := strings.TrimSuffix(filepath.Base(f), ".txt")
+		repl[filepath.Join(repoDir, "src", "zz_govc_"+base)] = f
+	}
+	ov, _ := json.Marshal(map[string]any{"Replace": repl})
+	ovPath := filepath.Join(dir, "overlay.json")
+	if err := os.WriteFile(ovPath, ov, 0o644); err != nil {
+		return nil, "", err
+	}
+	rq, _ := json.Marshal(req)
+	ctx, cancel := context.WithTimeout(context.Background(), 180*time.Second)
+	defer cancel()
+	cmd := exec.CommandContext(ctx, "go", "test", "-overlay", ovPath, "-vet=off", "-v", "-count=1", "-timeout", "120s", "-run", "^TestGovcReplay$", "./src")
+	cmd.Dir = repoDir
+	cmd.Env = append(os.Environ(), "GOFLAGS=-mod=mod", "GOPROXY=off", "GOVC_REPLAY="+string(rq), "TMPDIR="+dir)
+	var out bytes.Buffer
+	cmd.Stdout = &out
+	cmd.Stderr = &out
+	runErr := cmd.Run()
+	txt := out.String()
+	for _, line := range strings.Split(txt, "\n") {
+		if strings.HasPrefix(line, "GOVC-RESULT ") {
+			var r harnessReply
+			if err := json.Unmarshal([]byte(strings.TrimPrefix(line, "GOVC-RESULT ")), &r); err != nil {
+				return nil, txt, err
+			}
+			if r.Error != "" {
+				return nil, txt, fmt.Errorf("%s", r.Error)
+			}
+			return &r, txt, nil
+		}
+	}
+	if len(txt) > 3000 {
+		txt = txt[len(txt)-3000:]
+	}
+	return nil, txt, fmt.Errorf("replay harness produced no result (go test: %v)", runErr)
+}
+
+// findWitness searches the property's corpus on the real code for an input that violates the property.
+func findWitness(s *Session, prop string, ob *Obligation) *Witness {
+	if os.Getenv("GOVC_NO_WITNESS") != "" {
+		return nil
+	}
+	r, _, err := runHarness(map[string]any{"mode": "search", "property": prop, "hint": ob.Name})
+	if err != nil || r == nil || !r.Violated {
+		return nil
+	}
+	return &Witness{Input: r.Input, Observed: r.Observed}
+}
 
 func runWitness(prop string, input map[string]any) (string, bool, error) {
-	return "no replay harness for this property yet", false, nil
+	r, raw, err := runHarness(map[string]any{"mode": "run", "input": input})
+	if err != nil {
+		return raw, false, err
+	}
+	return r.Observed, r.Violated, nil
 }
